@@ -36,8 +36,7 @@ theorem dotted_ne_nil {labels : List Bytes} (h : labels ≠ []) : dotted labels 
 /-- `EncName buf d off labels e`: at offset `off` of the datagram starts an encoding of the name `labels` that uses `d`
 compression pointers on the way and whose part in the linear stream ends at `e`.
 Labels have 1..RFC1035_MAXLABELSZ octets; a pointer is two octets `11xxxxxx xxxxxxxx` whose low 14 bits are the offset
-of an encoding of the rest of the name (any offset: backwards, forwards, overlapping); the rest after a pointer is not
-empty (a pointer to a root label is the excluded case, see `pointer_to_root_counterexample`). -/
+of an encoding of the rest of the name (any offset: backwards, forwards, overlapping), the root label included. -/
 inductive EncName (buf : Bytes) : Nat → Nat → List Bytes → Nat → Prop
   | root {off : Nat} {c : UInt8} :
       buf[off]? = some c → c.toNat = 0 → EncName buf 0 off [] (off + 1)
@@ -48,7 +47,7 @@ inductive EncName (buf : Bytes) : Nat → Nat → List Bytes → Nat → Prop
       EncName buf d off (l :: rest) e
   | ptr {d off e' : Nat} {hi lo : UInt8} {labels : List Bytes} :
       buf[off]? = some hi → buf[off + 1]? = some lo → hi.toNat > ptrThreshold →
-      EncName buf d ((hi.toNat * 256 + lo.toNat) &&& ptrMask) labels e' → labels ≠ [] →
+      EncName buf d ((hi.toNat * 256 + lo.toNat) &&& ptrMask) labels e' →
       EncName buf (d + 1) off labels (off + 2)
 
 theorem EncName.off_lt {buf : Bytes} {d off e : Nat} {labels : List Bytes} (h : EncName buf d off labels e) :
@@ -56,43 +55,47 @@ theorem EncName.off_lt {buf : Bytes} {d off e : Nat} {labels : List Bytes} (h : 
   cases h with
   | root h _ => exact (List.getElem?_eq_some_iff.mp h).1
   | label h _ _ _ _ _ => exact (List.getElem?_eq_some_iff.mp h).1
-  | ptr h _ _ _ _ => exact (List.getElem?_eq_some_iff.mp h).1
+  | ptr h _ _ _ => exact (List.getElem?_eq_some_iff.mp h).1
 
 theorem EncName.end_le {buf : Bytes} {d off e : Nat} {labels : List Bytes} (h : EncName buf d off labels e) :
     e ≤ buf.length := by
   induction h with
   | root h _ => have := (List.getElem?_eq_some_iff.mp h).1; omega
   | label _ _ _ _ _ _ ih => exact ih
-  | ptr _ h _ _ _ _ => have := (List.getElem?_eq_some_iff.mp h).1; omega
+  | ptr _ h _ _ _ => have := (List.getElem?_eq_some_iff.mp h).1; omega
 
 theorem maxLabel_le_ptrThreshold : maxLabelSz ≤ ptrThreshold := by decide
+theorem nameBufSz_lt : nameBufSz < 65536 := by decide
 
-theorem nameOut_append_hop (acc : Bytes) {labels : List Bytes} (h : labels ≠ []) :
-    acc ++ nameOut labels = if acc ++ dotted labels = [] then [0] else (acc ++ dotted labels).dropLast ++ [0] := by
-  have hne := dotted_ne_nil h
-  have : acc ++ dotted labels ≠ [] := by simp [hne]
-  simp only [nameOut, hne, this, ↓reduceIte]
-  rw [List.dropLast_append_of_ne_nil hne, List.append_assoc]
+/-- the stores of a call entered with `acc`: `acc`, the dotted labels, the last '.' overwritten by NUL -/
+def storesOf (acc : Bytes) (labels : List Bytes) : Bytes :=
+  if acc ++ dotted labels = [] then [0] else (acc ++ dotted labels).dropLast ++ [0]
 
-/-- The decoder, entered with `acc` stored, on an encoded name that fits the buffer with its NUL: returns 0, `*off` at
-the end of the linear part, the counter advanced by the wire length, and `acc` + the dotted name + NUL stored. -/
+theorem wireLen_eq_zero {labels : List Bytes} : wireLen labels = 0 ↔ labels = [] := by
+  cases labels with
+  | nil => simp [wireLen]
+  | cons l r => simp [wireLen]
+
+/-- The decoder (code since fd17dd6), entered with `acc` stored, on an encoded name that fits the buffer with its NUL:
+returns 0, `*off` at the end of the linear part, the counter advanced by the wire length, and `acc` + the dotted name +
+NUL stored — followed by nothing but further NULs (one for every pointer that led to the root label only). -/
 theorem nameLoop_enc (buf : Bytes) {d off e : Nat} {labels : List Bytes} (henc : EncName buf d off labels e) :
     ∀ (fuel ns rdepth : Nat) (acc : Bytes) (rdl : Nat),
-      rdepth + d ≤ maxRdepth + 1 → acc.length + wireLen labels < ns → labels.length + d + 1 ≤ fuel →
-      nameLoop buf fuel off ns rdepth acc rdl =
-        .ok ⟨e, rdl + wireLen labels,
-             if acc ++ dotted labels = [] then [0] else (acc ++ dotted labels).dropLast ++ [0]⟩ := by
+      rdepth + d ≤ maxRdepth + 1 → acc.length + wireLen labels < ns → ns ≤ 65536 → labels.length + d + 1 ≤ fuel →
+      ∃ k, nameLoop true buf fuel off ns rdepth acc rdl =
+        .ok ⟨e, rdl + wireLen labels, storesOf acc labels ++ List.replicate k 0⟩ := by
   induction henc with
   | @root off c hc hz =>
-    intro fuel ns rdepth acc rdl _ hfit hfuel
+    intro fuel ns rdepth acc rdl _ hfit _ hfuel
     obtain ⟨fuel, rfl⟩ : ∃ f, fuel = f + 1 := ⟨fuel - 1, by omega⟩
     have hlt := (List.getElem?_eq_some_iff.mp hc).1
     have hnot : ¬ off ≥ buf.length := by omega
+    refine ⟨0, ?_⟩
     rw [nameLoop]
     simp only [hnot, ↓reduceIte, hc, hz]
     have h1 : ¬ (0 > ptrThreshold) := by omega
     have h2 : ¬ (0 > maxLabelSz) := by omega
-    simp only [h1, h2, ↓reduceIte, dotted, wireLen, List.append_nil, Nat.add_zero]
+    simp only [h1, h2, ↓reduceIte, storesOf, dotted, wireLen, List.append_nil, Nat.add_zero, List.replicate_zero]
     unfold nameFinish
     simp only [wireLen, Nat.add_zero] at hfit
     by_cases ha : acc.length = 0
@@ -104,13 +107,16 @@ theorem nameLoop_enc (buf : Bytes) {d off e : Nat} {labels : List Bytes} (henc :
       have h4 : acc.length ≤ ns := by omega
       simp [ha, h3, h4, hne]
   | @label d off e c l rest hc hlen h1 h63 htake hrest ih =>
-    intro fuel ns rdepth acc rdl hdepth hfit hfuel
+    intro fuel ns rdepth acc rdl hdepth hfit hns hfuel
     obtain ⟨fuel, rfl⟩ : ∃ f, fuel = f + 1 := ⟨fuel - 1, by simp at hfuel; omega⟩
     have hlt := (List.getElem?_eq_some_iff.mp hc).1
     have hnext := hrest.off_lt
     have hnot : ¬ off ≥ buf.length := by omega
     have hle := maxLabel_le_ptrThreshold
     simp only [wireLen] at hfit
+    obtain ⟨k, hk⟩ := ih fuel ns rdepth (acc ++ l ++ [46]) (rdl + l.length + 1) hdepth (by simp; omega) hns
+      (by simp at hfuel; omega)
+    refine ⟨k, ?_⟩
     rw [nameLoop]
     simp only [hnot, ↓reduceIte, hc, hlen]
     have g1 : ¬ (l.length > ptrThreshold) := by omega
@@ -123,30 +129,73 @@ theorem nameLoop_enc (buf : Bytes) {d off e : Nat} {labels : List Bytes} (henc :
     simp only [g1, g2, g3, g4, g5, g6, g7, ↓reduceIte, htake]
     have g8 : (acc ++ l ++ [46]).length < ns := by simp; omega
     simp only [g8, ↓reduceIte]
-    rw [ih fuel ns rdepth (acc ++ l ++ [46]) (rdl + l.length + 1) hdepth (by simp; omega) (by simp at hfuel; omega)]
-    simp only [wireLen, dotted, List.append_assoc]
+    rw [hk]
+    simp only [wireLen, storesOf, dotted, List.append_assoc]
     congr 2
     omega
-  | @ptr d off e' hi lo labels hhi hlo hgt htgt hne ih =>
-    intro fuel ns rdepth acc rdl hdepth hfit hfuel
+  | @ptr d off e' hi lo labels hhi hlo hgt htgt ih =>
+    intro fuel ns rdepth acc rdl hdepth hfit hns hfuel
     obtain ⟨fuel, rfl⟩ : ∃ f, fuel = f + 1 := ⟨fuel - 1, by omega⟩
     have hlt := (List.getElem?_eq_some_iff.mp hlo).1
     have htl := htgt.off_lt
     have hnot : ¬ off ≥ buf.length := by omega
-    rw [nameLoop]
-    simp only [hnot, ↓reduceIte, hhi, hgt]
+    obtain ⟨k', hk'⟩ := ih fuel (ns - acc.length) (rdepth + 1) [] 0 (by omega) (by simp; omega) (by omega) (by omega)
     have g1 : ¬ (rdepth > maxRdepth) := by omega
     have g2 : ¬ (off + 2 > buf.length) := by omega
     have hs : rd16 buf off = some (hi.toNat * 256 + lo.toNat) := by simp [rd16, hhi, hlo]
-    simp only [g1, g2, ↓reduceIte, hs]
     have g3 : ¬ ((hi.toNat * 256 + lo.toNat) &&& ptrMask ≥ buf.length) := by omega
     have g4 : ¬ (ns - acc.length = 0) := by omega
-    simp only [g3, g4, ↓reduceIte]
-    rw [ih fuel (ns - acc.length) (rdepth + 1) [] rdl (by omega) (by simp; omega) (by omega)]
-    simp only [List.nil_append]
-    have := nameOut_append_hop acc hne
-    simp only [nameOut] at this
-    rw [this]
+    have hmod : (0 + wireLen labels) % 65536 = wireLen labels := by
+      rw [Nat.zero_add]; exact Nat.mod_eq_of_lt (by omega)
+    by_cases hl : labels = []
+    · subst hl
+      by_cases ha : acc = []
+      · subst ha
+        refine ⟨k', ?_⟩
+        rw [nameLoop]
+        simp only [hnot, ↓reduceIte, hhi, hgt, g1, g2, hs, g3, g4, hk']
+        simp [storesOf, dotted, wireLen]
+      · have hal : acc.length ≠ 0 := by intro h; exact ha (List.length_eq_zero_iff.mp h)
+        refine ⟨k' + 1, ?_⟩
+        rw [nameLoop]
+        simp only [hnot, ↓reduceIte, hhi, hgt, g1, g2, hs, g3, g4, hk']
+        simp [storesOf, dotted, wireLen, hal, ha, List.replicate_succ]
+    · have hw : wireLen labels ≠ 0 := fun h => hl (wireLen_eq_zero.mp h)
+      have hne := dotted_ne_nil hl
+      refine ⟨k', ?_⟩
+      rw [nameLoop]
+      simp only [hnot, ↓reduceIte, hhi, hgt, g1, g2, hs, g3, g4, hk', hmod, hw, and_false]
+      have h1 : acc ++ dotted labels ≠ [] := by simp [hne]
+      simp only [storesOf, List.nil_append, hne, h1, ↓reduceIte, Nat.zero_add]
+      rw [List.dropLast_append_of_ne_nil hne]
+      simp [List.append_assoc]
+
+/-- bytes behind the first NUL do not belong to the C string -/
+theorem cstr_append_zero (x rest : Bytes) : cstr (x ++ [0] ++ rest) = cstr (x ++ [0]) := by
+  unfold cstr
+  induction x with
+  | nil => simp [List.takeWhile_cons]
+  | cons a t ih =>
+    by_cases ha : a = 0
+    · simp [List.takeWhile_cons, ha]
+    · simp only [List.cons_append, List.takeWhile_cons, ne_eq, ha, not_false_eq_true, decide_true, ↓reduceIte,
+        List.cons.injEq, true_and]
+      simpa using ih
+
+theorem storesOf_nil (labels : List Bytes) : storesOf [] labels = nameOut labels := by
+  simp [storesOf, nameOut]
+
+/-- the text of a name as a C string: the labels joined by '.' (cut at a NUL, should a label contain one) -/
+def nameText (labels : List Bytes) : Bytes := cstr (nameOut labels)
+
+theorem cstr_nameOut_pad (labels : List Bytes) (k : Nat) :
+    cstr (nameOut labels ++ List.replicate k 0) = nameText labels := by
+  unfold nameText nameOut
+  split
+  · exact cstr_append_zero [] _
+  · exact cstr_append_zero _ _
+
+theorem ptrRootDropsDot_eq : ptrRootDropsDot = true := by decide
 
 /-! ### fixed-layout fields -/
 
@@ -207,18 +256,23 @@ theorem length_le_wireLen (labels : List Bytes) : labels.length ≤ wireLen labe
   | nil => simp [wireLen]
   | cons l r ih => simp [wireLen]; omega
 
-/-- rfc1035NameUnpack from the top on an encoded name that fits the 256-byte buffer -/
+/-- rfc1035NameUnpack from the top on an encoded name that fits the 256-byte buffer: success, `*off` behind the
+linear part, the counter = the wire length of the labels, and the C string left in the buffer is the dotted name -/
 theorem nameUnpack_enc {buf : Bytes} {d off e : Nat} {labels : List Bytes} (henc : EncName buf d off labels e)
     (hd : d ≤ maxRdepth + 1) (hfit : wireLen labels < nameBufSz) :
-    nameUnpack buf off nameBufSz = .ok ⟨e, wireLen labels, nameOut labels⟩ := by
-  unfold nameUnpack
+    ∃ out, nameUnpack buf off nameBufSz = .ok ⟨e, wireLen labels, out⟩ ∧ cstr out = nameText labels := by
+  unfold nameUnpack nameUnpackV
+  rw [ptrRootDropsDot_eq]
   have hpos := nameBufSz_pos
+  have h16 := nameBufSz_lt
   have : ¬ nameBufSz = 0 := by omega
   simp only [this, ↓reduceIte]
   have hl := length_le_wireLen labels
-  have := nameLoop_enc buf henc (nameFuel nameBufSz) nameBufSz 0 [] 0 (by omega) (by simpa using hfit)
-    (by simp [nameFuel]; omega)
-  simpa [nameOut] using this
+  obtain ⟨k, hk⟩ := nameLoop_enc buf henc (nameFuel nameBufSz) nameBufSz 0 [] 0 (by omega) (by simpa using hfit)
+    (by omega) (by simp [nameFuel]; omega)
+  refine ⟨_, by rw [hk, Nat.zero_add], ?_⟩
+  rw [storesOf_nil]
+  exact cstr_nameOut_pad labels k
 
 /-! ### records -/
 
@@ -231,17 +285,16 @@ inductive EncRR (buf : Bytes) : Nat → RR → Nat → Prop
       EncName buf d off labels e → d ≤ maxRdepth + 1 → wireLen labels < nameBufSz →
       ty ≠ typePTR → ty < 65536 → cl < 65536 → ttl < 4294967296 → rdata.length < 65536 →
       IsAt buf e (be16 ty ++ be16 cl ++ be32 ttl ++ be16 rdata.length ++ rdata) →
-      EncRR buf off ⟨nameOut labels, ty, cl, ttl, rdata.length, rdata⟩ (e + 10 + rdata.length)
+      EncRR buf off ⟨nameText labels, ty, cl, ttl, rdata.length, rdata⟩ (e + 10 + rdata.length)
   | ptr {off d e d' e' : Nat} {labels target : List Bytes} {cl ttl rdlen : Nat} :
       EncName buf d off labels e → d ≤ maxRdepth + 1 → wireLen labels < nameBufSz →
       cl < 65536 → ttl < 4294967296 → rdlen < 65536 →
       IsAt buf e (be16 typePTR ++ be16 cl ++ be32 ttl ++ be16 rdlen) →
       EncName buf d' (e + 10) target e' → d' ≤ maxRdepth + 1 → wireLen target < nameBufSz →
       e' ≤ e + 10 + rdlen → e + 10 + rdlen ≤ buf.length →
-      EncRR buf off ⟨nameOut labels, typePTR, cl, ttl, wireLen target, nameOut target⟩ (e + 10 + rdlen)
+      EncRR buf off ⟨nameText labels, typePTR, cl, ttl, wireLen target, nameText target⟩ (e + 10 + rdlen)
 
 theorem typePTR_lt : typePTR < 65536 := by decide
-theorem nameBufSz_lt : nameBufSz < 65536 := by decide
 
 theorem rrUnpack_enc {buf : Bytes} {off off' : Nat} {rr : RR} (h : EncRR buf off rr off') :
     rrUnpack buf off = .ok (rr, off') := by
@@ -263,11 +316,12 @@ theorem rrUnpack_enc {buf : Bytes} {off off' : Nat} {rr : RR} (h : EncRR buf off
       · rcases hat.end_le with hc | hc
         · simp at hb; simp [hc]; omega
         · omega
+    obtain ⟨out, hn, hc⟩ := nameUnpack_enc henc hd hfit
     unfold rrUnpack
-    rw [nameUnpack_enc henc hd hfit]
+    rw [hn]
     have g1 : ¬ (e + rrFixedSz > buf.length) := by omega
     have g2 : ¬ (e + 10 + rdata.length > buf.length) := by omega
-    simp only [g1, g2, hend, ↓reduceIte, r1, r2, r3, r4, hty]
+    simp only [g1, g2, hend, ↓reduceIte, r1, r2, r3, r4, hty, hc]
     have : List.take rdata.length (List.drop (e + 10) buf) = rdata := by
       have := hat
       unfold IsAt at this
@@ -282,14 +336,16 @@ theorem rrUnpack_enc {buf : Bytes} {off off' : Nat} {rr : RR} (h : EncRR buf off
     have r2 := rd16_of_isAt (by simpa [be16] using h2) hcl
     have r3 := rd32_of_isAt (n := ttl) (by simpa [be16, be32] using h3) httl
     have r4 := rd16_of_isAt (by simpa [be16] using h4) hlen
+    obtain ⟨out, hn, hc⟩ := nameUnpack_enc henc hd hfit
+    obtain ⟨out', hn', hc'⟩ := nameUnpack_enc htgt hd' hfit'
     unfold rrUnpack
-    rw [nameUnpack_enc henc hd hfit]
+    rw [hn]
     have g1 : ¬ (e + rrFixedSz > buf.length) := by omega
     have g2 : ¬ (e + 10 + rdlen > buf.length) := by omega
     simp only [g1, g2, ↓reduceIte, r1, r2, r3, r4]
-    rw [nameUnpack_enc htgt hd' hfit']
+    rw [hn']
     have g3 : ¬ (e' > e + 10 + rdlen) := by omega
-    simp only [g3, hend, ↓reduceIte]
+    simp only [g3, hend, ↓reduceIte, hc, hc']
     have := nameBufSz_lt
     rw [Nat.mod_eq_of_lt (by omega)]
 
@@ -356,14 +412,14 @@ theorem headerUnpack_enc {buf : Bytes} {h : Header} (hat : IsAt buf 0 (headerByt
 
 /-- `EncMsg buf m`: the datagram `buf` carries the message `m` — the header at 0, one question at 12 (name possibly
 compressed, QTYPE, QCLASS), then `ANCOUNT = m.answers.length` answer records; whatever follows (authority and
-additional sections) is not constrained. `m.query.name` and the names in the records are the dotted NUL-terminated texts. -/
+additional sections) is not constrained. `m.query.name` and the names in the records are the dotted texts (`nameText`). -/
 structure EncMsg (buf : Bytes) (m : Msg) : Prop where
   hwf : m.hdr.wf
   hdr : IsAt buf 0 (headerBytes m.hdr)
   qd : m.hdr.qdcount = 1
   an : m.hdr.ancount = m.answers.length
   question : ∃ d e labels, EncName buf d 12 labels e ∧ d ≤ maxRdepth + 1 ∧ wireLen labels < nameBufSz ∧
-    m.query.name = nameOut labels ∧ m.query.qtype < 65536 ∧ m.query.qclass < 65536 ∧
+    m.query.name = nameText labels ∧ m.query.qtype < 65536 ∧ m.query.qclass < 65536 ∧
     IsAt buf e (be16 m.query.qtype ++ be16 m.query.qclass) ∧ EncRRs buf (e + 4) m.answers
 
 theorem messageUnpack_enc {buf : Bytes} {m : Msg} (h : EncMsg buf m) :
@@ -381,10 +437,11 @@ theorem messageUnpack_enc {buf : Bytes} {m : Msg} (h : EncMsg buf m) :
     · simp at hb; omega
   have e4 := qFixedSz_eq
   have hq : queryUnpack buf 12 = .ok (m.query, e + 4) := by
+    obtain ⟨out, hn, hc⟩ := nameUnpack_enc henc hd hfit
     unfold queryUnpack
-    rw [nameUnpack_enc henc hd hfit]
+    rw [hn]
     have g : ¬ (e + qFixedSz > buf.length) := by omega
-    simp only [g, ↓reduceIte, r1, r2]
+    simp only [g, ↓reduceIte, r1, r2, hc]
     rw [← hname]
   unfold messageUnpack
   rw [headerUnpack_enc hhdr hwf]
